@@ -24,7 +24,7 @@ func init() {
 	fw.Register(&fw.Prop{
 		ID: "C09",
 		Rule: "hostile-argument monitor: every public entry point (7 constructors, Concat, BackPropagate, all Tensor methods; component constructors and Forward/Compute/Accumulate/Result/Update/Init/Weights) is called under recover() with: every integer of [-2,6] for each dim/n/size argument against a pool of 60 receiver shapes of rank 0..5; dims/shape lists of length 0..5 over [-2,6] (exhaustive to length 2, sampled above) and nil; At indexes of length 0..rank+1; Slice/Patch ranges with From,To in [-2,6] (all 81 per dimension for rank <= 2, sampled above), nil and over-long indexes; nil / foreign / every-other-pool-shape tensor operands; rectangular, ragged-at-every-level, empty-at-every-level and nil nested data of depth 1..4; nil / zero / negative / NaN configuration values; initializers returning nil, errors or wrongly shaped tensors. " +
-			"Oracle: a panic is a violation; the reference precondition predicate decides whether an error (with a nil result) or a result (nil error, Shape = the defined shape, NElems = its product) is required. Non-trivial: every call is (the space is the argument space); distinct = (entry point, argument class, outcome class). Later addition: BackPropagate called again over graphs that were already back-propagated (root twice, interior then root then leaf, two heads then the first again) for 50+ single-operation graphs (binary operations with the trunk as both operands, as the first, as the second): any outcome but a panic; BackPropagate over graphs from the C01 program generator: nil error and no panic from the root, no panic from a second random node.",
+			"Oracle: a panic is a violation; the reference precondition predicate decides whether an error (with a nil result) or a result (nil error, Shape = the defined shape, NElems = its product) is required. Non-trivial: every call is (the space is the argument space); distinct = (entry point, argument class, outcome class). Later addition: BackPropagate called again over graphs that were already back-propagated (root twice, interior then root then leaf, two heads then the first again) for 50+ single-operation graphs (binary operations with the trunk as both operands, as the first, as the second; also after ResetGradContext on a tensor in the middle of the graph, on the leaf or on the result): any outcome but a panic; BackPropagate over graphs from the C01 program generator: nil error and no panic from the root, no panic from a second random node.",
 		Assumptions: []string{
 			"where the documentation fixes no outcome (foreign Tensor implementations handed to component entry points) only 'no panic' is demanded",
 			"a child process logs the case index before executing it, so a fatal runtime error still names its witness",
@@ -1177,7 +1177,7 @@ func c09RepeatedBackprop(k *fw.K, shape []int) {
 		}
 	}
 	for _, in := range ins {
-		for variant := 0; variant < 3; variant++ {
+		for variant := 0; variant < 6; variant++ {
 			in, variant := in, variant
 			x := rt.MustLeaf(UniquePos(k.Rng, shape, 0.3, 1.2), true)
 			xs := []tensor.Tensor{x}
@@ -1212,11 +1212,24 @@ func c09RepeatedBackprop(k *fw.K, shape []int) {
 					_ = tensor.BackPropagate(h)
 					_ = tensor.BackPropagate(y)
 					_ = tensor.BackPropagate(x)
-				default: // two heads over a shared trunk, then the first head again
+				case 2: // two heads over a shared trunk, then the first head again
 					z := y.Tanh()
 					_ = tensor.BackPropagate(z)
 					_ = tensor.BackPropagate(y)
 					_ = tensor.BackPropagate(z)
+				case 3: // a tensor in the middle of the graph is given a fresh context before the pass ("zero grad" in the wrong place)
+					h.ResetGradContext(true)
+					_ = tensor.BackPropagate(y)
+					_ = tensor.BackPropagate(h)
+				case 4: // ... or the leaf, or the result itself
+					x.ResetGradContext(variant%2 == 0)
+					_ = tensor.BackPropagate(y)
+					y.ResetGradContext(true)
+					_ = tensor.BackPropagate(y)
+				default: // ... or it is detached
+					h.ResetGradContext(false)
+					_ = tensor.BackPropagate(y)
+					_ = tensor.BackPropagate(x)
 				}
 			}); p != nil {
 				k.Case = c09call{Entry: "BackPropagate (repeated)", Args: fmt.Sprintf("graph x -> Scale -> %s on shape %v, variant %d", in.Op, shape, variant), Want: "no panic"}
